@@ -78,6 +78,11 @@ type thread struct {
 	idle   bool
 	server bool
 	tag    string
+	// rendezvous on unbuffered channels (see "unbuffered channels" below)
+	seq     int       // step at which the thread reached its pending operation (FIFO among waiters)
+	handoff bool      // the thread's send on an unbuffered channel was matched: it performs the real send outside the baton
+	forced  uintptr   // a sender handed over to this (receiving) thread on that channel
+	selRecv []uintptr // unbuffered channels with a receive arm in the pending select
 }
 
 // Timer is a virtual timer registered with the scheduler.
@@ -325,6 +330,7 @@ func point(kind string, obj interface{}, ready func() bool) {
 	}
 	t.kind, t.obj, t.ready = kind, obj, ready
 	e.steps++
+	t.seq = e.steps
 	if e.steps > e.maxSteps {
 		e.Failures = append(e.Failures, Failure{Sig: "steplimit", Detail: fmt.Sprintf("more than %d scheduler steps (livelock or horizon too small)", e.maxSteps)})
 		e.end("steplimit")
@@ -339,6 +345,11 @@ func point(kind string, obj interface{}, ready func() bool) {
 		e.cur = next
 		next.wake <- struct{}{}
 		t.park(e)
+		if t.handoff {
+			// woken by a receiver that matched this thread's send on an unbuffered channel: the thread is
+			// not the current one; it performs the real send and parks again in PostSendT
+			return
+		}
 	}
 	t.ready = nil
 	e.traceStep(t, kind, obj)
@@ -853,6 +864,9 @@ func recvReady[T any](ch <-chan T) bool {
 	if isClosedKnown(p) {
 		return true
 	}
+	if cap(ch) == 0 && E != nil && E.parkedOn("send", p) != nil {
+		return true
+	}
 	// probe: with no value buffered a non-blocking receive can only succeed if
 	// the channel was closed (possibly by code we do not instrument).
 	select {
@@ -875,19 +889,73 @@ func sendReady[T any](ch chan<- T) bool {
 		return true // the real send will panic, as in Go
 	}
 	if cap(ch) == 0 {
-		Unsupported("send on an unbuffered channel is not modelled by the scheduler")
+		return E != nil && E.parkedOn("recv", chanPtr(ch)) != nil // rendezvous: a receiver must be waiting
 	}
 	return len(ch) < cap(ch)
 }
+
+// ---- unbuffered channels -------------------------------------------------------
+//
+// A send on an unbuffered channel is enabled while some thread is parked in a receive (plain or select arm) on
+// that channel, and a receive while some thread is parked in a send. Whichever of the two is scheduled first
+// matches the longest-waiting partner; the real operations then meet on the real channel: the sender performs
+// its real send outside the baton (it touches nothing else) and parks again right after it (PostSendT), the
+// receiver is or becomes the current thread and performs its real receive at once. Send arms of a select on an
+// unbuffered channel are not modelled (Unsupported).
+
+// parkedOn returns the longest-waiting thread parked in a send ("send") or receive ("recv") on channel p.
+func (e *Exec) parkedOn(kind string, p uintptr) *thread {
+	var best *thread
+	for _, t := range e.threads {
+		if t.exited || t.idle || t.ready == nil || t.handoff {
+			continue
+		}
+		ok := false
+		switch {
+		case t.kind == kind && t.obj != nil:
+			ok = chanPtr(t.obj) == p
+		case kind == "recv" && t.kind == "select":
+			for _, q := range t.selRecv {
+				ok = ok || q == p
+			}
+		}
+		if ok && (best == nil || t.seq < best.seq) {
+			best = t
+		}
+	}
+	return best
+}
+
+// rendezvousRecv runs in the receiving thread t (current) right before its real receive on unbuffered channel p.
+func (e *Exec) rendezvousRecv(t *thread, p uintptr) {
+	if t.forced == p {
+		t.forced = 0 // a sender handed over to us; its real send is under way
+		return
+	}
+	if isClosedKnown(p) {
+		return
+	}
+	if s := e.parkedOn("send", p); s != nil {
+		s.handoff, s.kind, s.ready = true, "after-send", nil
+		s.wake <- struct{}{}
+	}
+}
+
+// SendTok is returned by SendPt when the send is a rendezvous on an unbuffered channel.
+type SendTok = thread
 
 // RecvV is `<-ch`.
 func RecvV[T any](ch <-chan T) T {
 	if E == nil {
 		return <-ch
 	}
+	t := E.cur
 	point("recv", ch, func() bool { return recvReady(ch) })
 	if ch == nil {
 		panic("sched: receive from nil channel scheduled")
+	}
+	if cap(ch) == 0 {
+		E.rendezvousRecv(t, chanPtr(ch))
 	}
 	return <-ch
 }
@@ -898,7 +966,11 @@ func Recv2[T any](ch <-chan T) (T, bool) {
 		v, ok := <-ch
 		return v, ok
 	}
+	t := E.cur
 	point("recv", ch, func() bool { return recvReady(ch) })
+	if ch != nil && cap(ch) == 0 {
+		E.rendezvousRecv(t, chanPtr(ch))
+	}
 	v, ok := <-ch
 	return v, ok
 }
@@ -909,9 +981,9 @@ func SendV[T any](ch chan<- T, v T) {
 		ch <- v
 		return
 	}
-	point("send", ch, func() bool { return sendReady(ch) })
+	tok := SendPt(ch)
 	ch <- v
-	Post("send", nil)
+	PostSendT(tok)
 }
 
 // Post is the optional scheduling point right after a releasing operation (see Options.PostPoints).
@@ -924,12 +996,41 @@ func Post(kind string, obj interface{}) {
 // PostSend follows a rewritten `ch <- v` statement.
 func PostSend() { Post("send", nil) }
 
-// SendPt is the scheduling point in front of a real `ch <- v`.
-func SendPt[T any](ch chan<- T) {
-	if E == nil {
-		return
+// PostSendT follows a rewritten `ch <- v` statement; tok is what SendPt returned in front of it.
+func PostSendT(tok *SendTok) {
+	if tok != nil {
+		// rendezvous on an unbuffered channel: the real send ran outside the baton; wait to be scheduled again
+		tok.handoff = false
+		tok.park(E)
 	}
+	Post("send", nil)
+}
+
+// SendPt is the scheduling point in front of a real `ch <- v`.
+func SendPt[T any](ch chan<- T) *SendTok {
+	e := E
+	if e == nil {
+		return nil
+	}
+	t := e.cur
 	point("send", ch, func() bool { return sendReady(ch) })
+	if ch == nil || cap(ch) != 0 || isClosedKnown(chanPtr(ch)) {
+		return nil
+	}
+	if t.handoff {
+		return t // a receiver matched us and goes on as the current thread
+	}
+	p := chanPtr(ch)
+	r := e.parkedOn("recv", p)
+	if r == nil {
+		panic("sched: send on an unbuffered channel scheduled without a waiting receiver")
+	}
+	// hand the baton to the receiver; our real send follows outside the baton
+	r.forced = p
+	t.handoff, t.kind, t.ready = true, "after-send", nil
+	e.cur = r
+	r.wake <- struct{}{}
+	return t
 }
 
 // CloseCh is `close(ch)`.
@@ -956,16 +1057,26 @@ func LenCh[T any](ch chan T) int {
 type Case struct {
 	ch    interface{}
 	ready func() bool
+	unbuf uintptr // receive arm on an unbuffered channel: the channel
 }
 
 // R builds a receive case.
 func R[T any](ch <-chan T) Case {
-	return Case{ch: ch, ready: func() bool { return recvReady(ch) }}
+	c := Case{ch: ch, ready: func() bool { return recvReady(ch) }}
+	if ch != nil && cap(ch) == 0 {
+		c.unbuf = chanPtr(ch)
+	}
+	return c
 }
 
 // S builds a send case.
 func S[T any](ch chan<- T) Case {
-	return Case{ch: ch, ready: func() bool { return sendReady(ch) }}
+	return Case{ch: ch, ready: func() bool {
+		if ch != nil && cap(ch) == 0 && !isClosedKnown(chanPtr(ch)) {
+			Unsupported("a select arm that sends on an unbuffered channel is not modelled by the scheduler")
+		}
+		return sendReady(ch)
+	}}
 }
 
 // Select decides which arm of a select runs: the index of a ready case, or -1
@@ -992,15 +1103,38 @@ func Select(hasDefault bool, cases ...Case) int {
 		}
 		return len(ready) > 0 || hasDefault
 	}
+	t := E.cur
+	t.selRecv = t.selRecv[:0]
+	for _, c := range cases {
+		if c.unbuf != 0 {
+			t.selRecv = append(t.selRecv, c.unbuf)
+		}
+	}
 	point("select", nil, scan)
+	t.selRecv = t.selRecv[:0]
+	if t.forced != 0 {
+		// a sender on an unbuffered channel handed over to this arm
+		for i, c := range cases {
+			if c.unbuf == t.forced {
+				t.forced = 0
+				return i
+			}
+		}
+		panic("sched: select was handed a send on a channel it does not receive from")
+	}
 	scan()
+	pick := -1
 	switch len(ready) {
 	case 0:
-		return -1
 	case 1:
-		return ready[0]
+		pick = ready[0]
+	default:
+		pick = ready[Choose(ClsSelect, len(ready), "select")]
 	}
-	return ready[Choose(ClsSelect, len(ready), "select")]
+	if pick >= 0 && cases[pick].unbuf != 0 {
+		E.rendezvousRecv(t, cases[pick].unbuf)
+	}
+	return pick
 }
 
 // ---- maps -------------------------------------------------------------------
